@@ -413,3 +413,83 @@ unsafe fn dispose_general_node<T: RcObject>(
         guard.defer_with_inner(rc, |rc| RcInner::try_destruct(rc));
     }
 }
+
+/// Thin wrappers over the private word-level functions, for the verification harness.
+#[cfg(circ_verif)]
+pub mod verif_shim {
+    use super::*;
+
+    pub const CONSTS: [(&str, u64); 12] = [
+        ("EPOCH_WIDTH", EPOCH_WIDTH as u64),
+        ("EPOCH_MASK_HEIGHT", EPOCH_MASK_HEIGHT as u64),
+        ("EPOCH", EPOCH),
+        ("DESTRUCTED", DESTRUCTED),
+        ("WEAKED", WEAKED),
+        ("TOTAL_COUNT_WIDTH", TOTAL_COUNT_WIDTH as u64),
+        ("WEAK_WIDTH", WEAK_WIDTH as u64),
+        ("STRONG_WIDTH", STRONG_WIDTH as u64),
+        ("STRONG", STRONG),
+        ("WEAK", WEAK),
+        ("COUNT", COUNT),
+        ("WEAK_COUNT", WEAK_COUNT),
+    ];
+
+    pub fn state_epoch(w: u64) -> u32 {
+        State::from_raw(w).epoch()
+    }
+    pub fn state_strong(w: u64) -> u32 {
+        State::from_raw(w).strong()
+    }
+    pub fn state_weak(w: u64) -> u32 {
+        State::from_raw(w).weak()
+    }
+    pub fn state_destructed(w: u64) -> bool {
+        State::from_raw(w).destructed()
+    }
+    pub fn state_weaked(w: u64) -> bool {
+        State::from_raw(w).weaked()
+    }
+    pub fn state_with_epoch(w: u64, e: usize) -> u64 {
+        State::from_raw(w).with_epoch(e).as_raw()
+    }
+    pub fn state_add_strong(w: u64, v: u32) -> u64 {
+        State::from_raw(w).add_strong(v).as_raw()
+    }
+    pub fn state_sub_strong(w: u64, v: u32) -> u64 {
+        State::from_raw(w).sub_strong(v).as_raw()
+    }
+    pub fn state_add_weak(w: u64, v: u32) -> u64 {
+        State::from_raw(w).add_weak(v).as_raw()
+    }
+    pub fn state_with_destructed(w: u64, b: bool) -> u64 {
+        State::from_raw(w).with_destructed(b).as_raw()
+    }
+    pub fn state_with_weaked(w: u64, b: bool) -> u64 {
+        State::from_raw(w).with_weaked(b).as_raw()
+    }
+    /// The initial count word written by `RcInner::alloc`.
+    pub fn alloc_word(init_strong: u32) -> u64 {
+        let p = RcInner::<()>::alloc((), init_strong);
+        unsafe {
+            let w = (*p).state.load(Ordering::SeqCst);
+            RcInner::dealloc(p);
+            w
+        }
+    }
+    pub fn modular_trans(max: isize, v: isize) -> isize {
+        Modular::<EPOCH_WIDTH>::new(max).trans(v)
+    }
+    pub fn modular_inver(max: isize, v: isize) -> isize {
+        Modular::<EPOCH_WIDTH>::new(max).inver(v)
+    }
+    pub fn modular_max(max: isize, nums: &[isize]) -> isize {
+        Modular::<EPOCH_WIDTH>::new(max).max(nums)
+    }
+    pub fn modular_le(max: isize, a: isize, b: isize) -> bool {
+        Modular::<EPOCH_WIDTH>::new(max).le(a, b)
+    }
+    /// The count word of an object (for monitors).
+    pub(crate) fn count_word<T>(p: *mut RcInner<T>) -> u64 {
+        unsafe { (*p).state.load(Ordering::SeqCst) }
+    }
+}
